@@ -53,21 +53,21 @@ message Outer {
         bool b = 1
         Kind k = 2
     }
-    Inner i = 1
-    uint5[2]%s arr = 2
-    Arr al = 3
-}
-
-message Last%s {
     enum Mode : uint12 {
         MODE_Z = 0
         MODE_BIG = 3000
     }
+    Inner i = 1
+    uint5[2]%s arr = 2
+    Arr al = 3
+    Mode mode = 4
+    Mode[2] modes = 5
+}
+
+message Last%s {
     Outer o = 1
     lib.LM m = 2
     Inner top = 3
-    Mode mode = 4
-    Mode[2] modes = 5
 }
 """ % (q("alias_array"), q("nested_message"), q("array_field"), q("message"))
     return files
